@@ -115,10 +115,50 @@ def large_work(item):
     return res
 
 
+def make_invariant(data):
+    """Edit-history part: in every state of the edit BFS (reads between edits keep derived values warm) the reported
+    density is minus the log of the exact number of compatible orders and a drawn order is compatible."""
+    from phyclone.smc.utils import RootPermutationDistribution
+    from mc.enumrng import EnumRNG
+
+    def inv(t_before, ev, t, depth):
+        a = oracle.abstract(t)
+        if not a[0] and not a[1]:
+            return []
+        cnt = exact_count(a)
+        lp = float(RootPermutationDistribution.log_pdf(t))
+        probs = []
+        if not abs(lp + math.log(cnt)) <= 1e-9:
+            probs.append("log_pdf reports %.6g compatible orders, the tree has %d" % (math.exp(-lp), cnt))
+        order = [dp.idx for dp in RootPermutationDistribution.sample(t, EnumRNG(policy=("first" if depth % 2 else "last")))]
+        pos = {v: k for k, v in enumerate(order)}
+        present = sorted(i for b, _ in a[0] for i in b) + sorted(a[1])
+        if sorted(order) != sorted(present):
+            probs.append("drawn order %r is not a permutation of the tree's data %r" % (order, sorted(present)))
+        else:
+            ch = oracle.children_map(a)
+
+            def desc(b):
+                out = set()
+                for c in ch.get(b, []):
+                    out |= set(c) | desc(c)
+                return out
+
+            for b, _ in a[0]:
+                dsc = desc(b)
+                if dsc and max(pos[j] for j in dsc) > min(pos[i] for i in b):
+                    probs.append("drawn order %r places clone %r before one of its descendants" % (order, sorted(b)))
+                    break
+        return probs
+
+    return inv
+
+
 def main(tier, seed):
     chk = Check("C09", tier, seed)
     chk.rule = ("every abstract tree over n <= 4 data points incl. every outlier subset (n = 5 without outliers in thorough), built in "
-                "three sibling/label variants: ALL executions of RootPermutationDistribution.sample; non-trivial = tree with >= 2 compatible orders")
+                "three sibling/label variants: ALL executions of RootPermutationDistribution.sample; every state of the edit-history BFS (n=3 to depth 6 (12), complete trees over 4 points to depth 4 (5); "
+                "all public reads between edits): log_pdf = -log(exact count) and a drawn order is compatible; non-trivial = tree with >= 2 compatible orders")
     chk.assumptions = ["orders compared as tuples of data indices; oracle = brute-force filter of all n! permutations"]
     items = []
     for n in (1, 2, 3, 4):
@@ -173,6 +213,12 @@ def main(tier, seed):
             if exact_count(s_) != len(oracle.linear_extensions(s_)):
                 chk.violation({"sub": "oracle"}, {"problem": "harness: exact count disagrees with the brute force", "tree": oracle.fmt_state(s_)}, {"oracle": True})
                 break
+    # trees with a history: every state of the edit BFS (the samplers' edit grammar, every public read between edits)
+    from mc.checks import c06
+
+    for r in ([dict(n=3, dims=1, grid=3, kind="generic", depth=(6 if tier == "quick" else 12), cap=None, outlier=0.2),
+               dict(n=4, dims=1, grid=3, kind="generic", depth=(4 if tier == "quick" else 5), cap=None, full_only=True, outlier=0.2)]):
+        c06.run_one(chk, r, seed, pid="C09", make_inv=make_invariant)
     from mc.checks.c02 import large_forests
 
     shapes = large_forests() + [tuple([-1] + list(range(29))), tuple([-1] + [0] * 24)]  # chain of 30 clones, star of 25
@@ -190,6 +236,10 @@ def main(tier, seed):
 def replay(path):
     body = json.load(open(path))
     rp = body["replay"]
+    if "search" in rp:
+        from mc.checks import c06
+
+        return c06.replay(path, make_inv=make_invariant)
     if "large" in rp:
         r = large_work((tuple(rp["large"][0]), rp["large"][1], rp["large"][2]))
         print(r["problems"])
